@@ -62,18 +62,6 @@ theorem get_multiplicity_eq (e : DExt κ α) (h3 : 3 ≤ e.shape.length) (h5 : e
   | [], h3, _ | [_], h3, _ | [_, _], h3, _ => simp at h3
   | _ :: _ :: _ :: _ :: _ :: _ :: _, _, h5 => simp at h5
 
-/-! ### `file_idx` of `get_data` -/
-
-/-- **the file index `get_data` computes is the model's `fileIdx`** -/
-theorem file_idx_eq (rows cols S T V v t s : Nat) :
-    Py.file_idx_slice [rows, cols, S, T, V] v t s = Stk.fileIdx S T s t v := by
-  simp [Py.file_idx_slice, Stk.fileIdx, Nat.mul_comm]
-
-/-- one file per volume: the index is the volume number -/
-theorem file_idx_volume_eq (rows cols S T V v t : Nat) :
-    Py.file_idx_volume [rows, cols, S, T, V] v t = v * T + t := by
-  simp [Py.file_idx_volume]
-
 /-! ### the index block of `get_meta` -/
 
 /-- all index components in range, starting at axis `k` -/
@@ -292,48 +280,5 @@ theorem meta_valid_eq (e : ExtGeom) (img : Img) (c : Cls)
     (split <;> simp_all)
 
 
-
-/-! ### the count checks of `get_shape` -/
-section shape_counts
-open Stk
-
-/-- the count conjuncts of the model's `acceptB` -/
-def countsOk (n s v : Nat) (sp : Bool) : Bool :=
-  decide (n ≠ 0) && (!(decide (s > 1)) || sp) && decide (n % s = 0) && decide (v ≤ n / s) &&
-    decide (n / s % v = 0)
-
-/-- **the count checks of `get_shape` as written in dcmstack.py are the count conjuncts of the model's
-    acceptance test**, and the dimensions they derive are the model's `dimS`, `dimT`, `dimV` -/
-theorem get_shape_counts_eq (n s v : Nat) (sp : Bool) :
-    Py.get_shape_counts n s v sp =
-      if countsOk n s v sp then .ok (s, n / s / v, v) else .error PyErr.invalidStack := by
-  unfold Py.get_shape_counts countsOk
-  by_cases h0 : n = 0
-  · simp [h0, bind, Except.bind, throw, throwThe, MonadExceptOf.throw]
-  · by_cases h1 : s > 1 <;> cases sp <;> by_cases h2 : n % s = 0 <;> by_cases h3 : v ≤ n / s <;>
-      by_cases h4 : n / s % v = 0 <;>
-      simp [h0, h1, h2, h3, h4, bind, Except.bind, throw, throwThe, MonadExceptOf.throw, pure, Except.pure] <;>
-      omega
-
-/-- the model's acceptance test is those count conjuncts and the two order checks of `_chk_order` -/
-theorem acceptB_counts (spacingOk : List Int → Bool) (files : List F) :
-    acceptB spacingOk files =
-      (countsOk files.length (dimS files) (dimV files) (spacingOk (distinctSorted (files.map (·.p)))) &&
-       (chunks (dimT files * dimS files) (dimV files)
-          (chkSort (dimS files) (files.length / dimS files) files)).all allSameV &&
-       (chunks (dimS files) (files.length / dimS files)
-          (chkSort (dimS files) (files.length / dimS files) files)).all
-        (fun b => b.map (·.p) == distinctSorted (files.map (·.p)))) := by
-  simp [acceptB, countsOk, Bool.and_assoc]
-
-end shape_counts
-
-/-! ### trimming of unused axes in `get_data` -/
-
-/-- **the trimming block of `get_data` as written in dcmstack.py is the model's `stackTrim`** -/
-theorem get_data_trim_eq (a : Wrap.Arr α) (rows cols S T V : Nat) :
-    Py.get_data_trim a [rows, cols, S, T, V] = .ok (Wrap.stackTrim a T V) := by
-  by_cases hV : V = 1 <;> by_cases hT : T = 1 <;>
-    simp [Py.get_data_trim, Wrap.stackTrim, hV, hT, pure, Except.pure]
 
 end Src
